@@ -14,7 +14,7 @@ from typing import (
     overload,
 )
 
-from confectioner.templating import get_dotted_key
+from confectioner.templating import dotted_key_exists, get_dotted_key
 
 from .exceptions import EvaluationError, InsufficientInformationError
 from .runtime import Request
@@ -543,6 +543,22 @@ class Bind(Generic[A, B], Evaluatable[B]):
 
 
 MaybeEvaluatable = Union[Evaluatable[X], X]
+
+
+def _present_keys(explainable: Explainable, options: Options) -> Set[str]:
+    """Keys that an object which could not be evaluated depends on and that are present.
+
+    When a fallback (a switch default, the next member of a coalesce) is chosen because
+    an object could not be evaluated, the result depends on whatever made it fail. A
+    missing key cannot be part of a fingerprint, but a present one (an out-of-domain
+    value, a templated value with an unresolvable reference) can and must be.
+    """
+    try:
+        keys = explainable.explain(options)
+    except Exception:  # noqa: E722
+        return set()
+
+    return {key for key in keys if dotted_key_exists(key, options)}
 
 
 class EvaluateRequest(Request[A]):
